@@ -47,6 +47,13 @@ def tables(k, full_orders=True):
                     out.append((wo, assocs, order, base_first, "prod"))
             if len(wo) == 1:
                 out.append((wo, assocs, tuple(ops), False, "rule"))
+            else:
+                # rule-level default = one of the levels; the productions of
+                # that level inherit it, the others override it (completely,
+                # or only the priority when the associativity is the same)
+                for d in range(len(wo)):
+                    for order in orders[:2] + orders[-1:]:
+                        out.append((wo, assocs, order, False, f"mixed:{d}"))
     return out
 
 
@@ -61,6 +68,19 @@ def render(tbl, offset=0):
         a = assocs[0]
         alts = [f'E "{op}" E' for op in order] + base
         text = f"E {{{a}, {1 + offset}}}: " + " | ".join(alts) + ";"
+    elif style.startswith("mixed:"):
+        d = int(style[6:])
+        da, dp = assocs[d], d + 1 + offset
+        alts = []
+        for op in order:
+            p, a = info[op]
+            if (p, a) == (dp, da):
+                alts.append(f'E "{op}" E')
+            elif a == da:
+                alts.append(f'E "{op}" E {{{p}}}')
+            else:
+                alts.append(f'E "{op}" E {{{a}, {p}}}')
+        text = f"E {{{da}, {dp}}}: " + " | ".join(alts + base) + ";"
     else:
         alts = [f'E "{op}" E {{{info[op][1]}, {info[op][0]}}}' for op in order]
         alts = base + alts if base_first else alts + base
